@@ -559,10 +559,15 @@ func (reg typeRegistry) characterizeFuncDetails(fm *provider, cc charContext) (*
 	var rejectReasons []string
 	var a testArgs
 	r, isReflective := fm.fn.(ReflectiveArgs)
-	if _, isType := fm.fn.(reflect.Type); isType {
-		// a reflect.Type value has the methods of ReflectiveArgs: it is
-		// a value, not the description of a function
-		isReflective = false
+	if isReflective {
+		switch fm.fn.(type) {
+		case Reflective, ReflectiveInvoker:
+		default:
+			// Something that has the methods of ReflectiveArgs (a reflect.Type value
+			// does) but can neither be called nor be set is a value, not the
+			// description of a function
+			isReflective = false
+		}
 	}
 	if isReflective {
 		a = testArgs{
